@@ -202,6 +202,11 @@ func (r *FeatureLocal) addPendingApproval(msg *api.Message) {
 	if _, ok := r.pendingWriteApprovals[ski]; !ok {
 		r.pendingWriteApprovals[ski] = make(map[model.MsgCounterType]*time.Timer)
 	}
+	// a repeated message with the same counter must not orphan the timer
+	// of the first one, it could never be stopped or cleaned up anymore
+	if oldTimer, ok := r.pendingWriteApprovals[ski][*msg.RequestHeader.MsgCounter]; ok && oldTimer != nil {
+		oldTimer.Stop()
+	}
 	r.pendingWriteApprovals[ski][*msg.RequestHeader.MsgCounter] = newTimer
 	r.muxResponseCB.Unlock()
 }
